@@ -2,6 +2,7 @@
 use std::marker::PhantomData;
 use std::collections::HashMap;
 use std::sync::{Arc, Mutex};
+use std::thread::ThreadId;
 use std::path::Path;
 use std::io::Write;
 
@@ -274,7 +275,9 @@ pub enum ScanItem {
 
 struct StorageResolver<'a, B, OC, SC, L> {
     storage: &'a Storage<B, OC, SC, L>,
-    chain: Mutex<Vec<PlainRef>>,
+    // references currently being loaded, tagged with the loading thread:
+    // a reference cycle is a key that the *same* thread is already loading.
+    chain: Mutex<Vec<(ThreadId, PlainRef)>>,
 }
 impl<'a, B, OC, SC, L> StorageResolver<'a, B, OC, SC, L> {
     pub fn new(storage: &'a Storage<B, OC, SC, L>) -> Self {
@@ -310,17 +313,20 @@ where
         let key = r.get_inner();
         self.storage.log.log_get(key);
         
+        let thread = std::thread::current().id();
         {
             debug!("get {key:?} as {}", std::any::type_name::<T>());
             let mut chain = self.chain.lock().unwrap();
-            if chain.contains(&key) {
+            if chain.contains(&(thread, key)) {
                 bail!("Recursive reference");
             }
-            chain.push(key);
+            chain.push((thread, key));
         }
         let _defer = Defer(|| {
             let mut chain = self.chain.lock().unwrap();
-            assert_eq!(chain.pop(), Some(key));
+            // entries of other threads may sit above ours: remove this thread's newest entry
+            let pos = chain.iter().rposition(|&(t, _)| t == thread);
+            assert_eq!(pos.map(|i| chain.remove(i).1), Some(key));
         });
         
         let res = self.storage.cache.get_or_compute(key, || {
